@@ -28,3 +28,54 @@ func VerifC06Ext93(n int) {
 	}
 	zv.Reach("ext93")
 }
+
+// VerifC06Truncated: the template of writer wi (one free character at position i; none if i < 0) rendered into a
+// row and cut after every possible number of modules (with q quiet modules in front): the matching
+// reader's DecodeRow returns a result or an error — never a panic, whatever the row width.
+func VerifC06Truncated(wi, i, q int) {
+	content := verifFreeContent(wi, i, -1)
+	_, _, r, _ := verifPair(wi)
+	var enc encoder
+	switch wi {
+	case 0:
+		enc = ean13Encoder{}
+	case 1:
+		enc = ean8Encoder{}
+	case 3:
+		enc = upcEEncoder{}
+	case 4, 9:
+		enc = code39Encoder{}
+	case 5:
+		enc = code93Encoder{}
+	case 6, 10:
+		enc = code128Encoder{}
+	case 7:
+		enc = itfEncoder{}
+	default:
+		enc = codabarEncoder{}
+	}
+	code, err := enc.encode(content)
+	zv.Assert(err == nil, "content accepted")
+	rd, ok := r.(RowDecoder)
+	zv.Assert(ok, "row decoder")
+	try := func(q, cut int) {
+		row := gozxing.NewBitArray(q + cut)
+		for k := 0; k < cut; k++ {
+			if code[k] {
+				row.Set(q + k)
+			}
+		}
+		res, e := rd.DecodeRow(0, row, nil)
+		zv.Assert((res != nil) != (e != nil), "result xor error")
+	}
+	for cut := 1; cut <= len(code); cut++ {
+		try(q, cut)
+		if cut > len(code)-12 {
+			// near the end of the symbol: every alignment of the row end to the 32-bit words
+			for qq := 0; qq < 32; qq++ {
+				try(qq, cut)
+			}
+		}
+	}
+	zv.Reach("c06truncated")
+}
